@@ -34,6 +34,18 @@ func (p *Prog) FileEffectOf(ins ssa.Instruction) *FileEffect {
 		return nil
 	}
 	c := ci.Common()
+	// a helper or closure of the program that writes to the stream it is handed (`put(dst io.Writer, v any)` around
+	// binary.Write), called with a file: the call is the write
+	if g := c.StaticCallee(); g != nil && !c.IsInvoke() && len(g.Blocks) > 0 && p.InModule(g) {
+		for _, i := range p.writerParams(g) {
+			if i < len(c.Args) {
+				if f := osFileOperand(c.Args[i]); f != nil {
+					return &FileEffect{Kind: "write", Class: p.fileClass(f), Ins: ins}
+				}
+			}
+		}
+		return nil
+	}
 	obj := p.ExtCallee(ci)
 	if obj == nil || c.IsInvoke() {
 		return nil
@@ -92,6 +104,44 @@ func (p *Prog) FileEffectOf(ins ssa.Instruction) *FileEffect {
 		}
 	}
 	return nil
+}
+
+// writerParams: the parameters of g (indices) of an interface type that g hands to a writing library call as the
+// destination stream.
+func (p *Prog) writerParams(g *ssa.Function) []int {
+	if p.wparams == nil {
+		p.wparams = map[*ssa.Function][]int{}
+	}
+	if r, ok := p.wparams[g]; ok {
+		return r
+	}
+	var out []int
+	eachInstr(g, func(ins ssa.Instruction) {
+		call, ok := ins.(*ssa.Call)
+		if !ok || call.Call.IsInvoke() || len(call.Call.Args) == 0 {
+			return
+		}
+		obj := p.ExtCallee(call)
+		if obj == nil {
+			return
+		}
+		writes := funcIs(obj, "encoding/binary", "", "Write") || funcIs(obj, "io", "", "WriteString") || funcIs(obj, "io", "", "Copy") ||
+			(obj.Pkg() != nil && obj.Pkg().Path() == "fmt" && strings.HasPrefix(obj.Name(), "Fprint"))
+		if !writes {
+			return
+		}
+		pr, isParam := call.Call.Args[0].(*ssa.Parameter)
+		if !isParam || !types.IsInterface(pr.Type()) {
+			return
+		}
+		for i, q := range g.Params {
+			if q == pr {
+				out = append(out, i)
+			}
+		}
+	})
+	p.wparams[g] = out
+	return out
 }
 
 // osFileOperand: v is an interface made from an *os.File
